@@ -218,6 +218,17 @@ def _token_forms(ctx, repo):
     ctx.ob("C11-R4", wl.fq, "list elements are written blank-separated and the list reader skips blanks between elements", sep and skips, node=wl.node, construct="list separator agreement")
 
 
+# functions whose mechanical mutants are swept in the thorough tier (coverage evidence, see sa/mutate.py)
+MUTATION_SCOPE = ['sys_fn:eval_sys_read',
+                  'sys_fn:eval_sys_read_string',
+                  'writer:kg_write_symbol',
+                  'writer:kg_write_char',
+                  'writer:kg_write_string',
+                  'writer:kg_write_dict',
+                  'writer:kg_write_list',
+                  'parser:read_string',
+                  'parser:kg_read_array']
+
 SEEDS = [
     Seed("rs-evaluates-literal", "refactor", "sys_fn", "    _, a = kg_read_array(x, 0, klong._backend, module=klong.current_module(), read_neg=True)\n    return a",
          "    _, a = kg_read_array(x, 0, klong._backend, module=klong.current_module(), read_neg=True)\n    b = a\n    return a"),
